@@ -43,6 +43,8 @@ type Stream struct {
 
 // Tape is the collection of streams of one run.
 type Tape struct {
+	replicaID  uint32
+	replicaSet bool
 	Seed    uint64
 	streams map[string]*Stream
 	replay  bool
